@@ -43,6 +43,10 @@ def run(ctx):
     r6_table_alignment(ctx)
     r7_minimize_guards(ctx)
     r8_no_silent_drop(ctx, dec, res)
+    # "the Result returned when writing to a result file and the Result returned without a file are identical", also when the pipeline breaks late: every record
+    # is on disk before the next one is computed (batch=1) -- a larger batch is filled from the lazy pipeline BEFORE the file is opened and is lost with it
+    from . import c02
+    c02.r2_append_batch(ctx, rule="C07.R9")
     from . import c12
     c12.gz_predicate(ctx, "C07.R4")
 
@@ -477,6 +481,7 @@ def r8_no_silent_drop(ctx, dec, res, rule="C07.R8"):
 
 
 CONTROLS = [
+    ("result records written eight at a time", EXP, M.replace_expr("Experiment.run", "DiskSink(result_file, batch=1)", "DiskSink(result_file, batch=8)"), "C07.R9"),
     ("undecodable lines are skipped", RES, M.replace_stmt("TransactionDecode.filter", M.text_has("yield from map(json.loads, transactions)"),
         "for transaction in transactions:\n    try:\n        yield json.loads(transaction)\n    except json.JSONDecodeError:\n        pass"), "C07.R8"),
     ("packed column converted by its first cell", RES, M.replace_expr("TransactionResult.filter", "[tuple(c) if c.__class__ is list else c for c in v] if k != 'rewards' else v",
